@@ -9,7 +9,7 @@
 use math::{
     fft::real_u64::{fft4_real, ifft4_real_unreduced},
     fields::f64::BaseElement,
-    FieldElement,
+    FieldElement, StarkField,
 };
 
 /// This module contains helper functions as well as constants used to perform a 12x12 vector-matrix
@@ -61,7 +61,11 @@ pub(crate) fn mds_multiply(state: &mut [BaseElement; 12]) {
         let z = (s_hi << 32) - s_hi;
         let (res, over) = s_lo.overflowing_add(z);
 
-        result[r] = BaseElement::from_mont(res.wrapping_add(0u32.wrapping_sub(over as u32) as u64));
+        // the value above is reduced modulo 2^64 only and can still be in [p, 2^64); `from_mont()`
+        // expects canonical Montgomery form (equality of elements compares these words)
+        let res = res.wrapping_add(0u32.wrapping_sub(over as u32) as u64);
+        let (reduced, below_modulus) = res.overflowing_sub(BaseElement::MODULUS);
+        result[r] = BaseElement::from_mont(if below_modulus { res } else { reduced });
     }
     *state = result;
 }
